@@ -10,6 +10,7 @@
 //	retrychild <json>         (internal) one C13 scenario
 //	direct <seed>             C13: VerifExecuteWithRetries called directly
 //	faults <seed> <tier>      C15: fault-injecting JobQueue
+//	restart <seed> <n>        C05/C10: restart with the loop of the stopped run still alive
 package main
 
 import (
@@ -218,6 +219,8 @@ func main() {
 		cmdDirect()
 	case "faults":
 		cmdFaults()
+	case "restart":
+		cmdRestart()
 	default:
 		fmt.Fprintln(os.Stderr, "unknown subcommand", os.Args[1])
 		os.Exit(2)
